@@ -132,6 +132,10 @@ def family(tier):
         # a time-sensitive mapping replayed with the recorded delays
         ("taphold", make(["rec1", "play1"], {}, "recorded", 2, th=("c", 3, "a", "lsft")),
          dict(D=5, saves=1, maclen=3, held=2 if big else 1)),
+        # the record key still held when the time-sensitive key is typed: the first recorded event is its press, and
+        # the pause since the recording began must not count into its recorded hold time
+        ("taphold_held", make(["rec1", "stop", "play1"], {}, "recorded", 2, th=("c", 3, "a", "lsft")),
+         dict(D=5, saves=1, maclen=2, held=2)),
         # bursts (two unprocessed events) and typing while the replay runs
         ("burst", make(["rec1", "play1"], A, "constant", 2), dict(D=0, saves=1, maclen=2, qmax=2, free_replay=True)),
         # control keys processed later than they arrive: bursts that include the record / stop keys
@@ -254,7 +258,22 @@ def directed(cfgname, rng, tier):
                 s += [["t", 30]]
                 S.append(s)
     if cfgname == "taphold":
-        return S, []
+        # the recorded gaps around the tap-hold timeout (CONFIGS: T = 4; tap up to 2 ticks, hold from 6), with a pause
+        # of w ticks between the start of the recording and the first key: record key still held (the first recorded
+        # event is the press of the time-sensitive key), or released first
+        F = []
+        for w in (1, 3, 5, 9):
+            for h in (1, 2, 6, 8):
+                for st in ("stop", "stopt1", "rec1"):
+                    # (the keys after the tap-hold key wait until its delayed release has been written: a control key
+                    # typed earlier is processed late, the known defect class)
+                    F.append([["d", C("rec1")], ["t", w]] + tap("c", h, 14) + [["u", C("rec1")], ["t", 2]] + tap(st, 1, 2) +
+                             tap("play1", 1, 0) + wait_replay(6) + tap("play1", 1, 0) + wait_replay(6) + [["t", 30]])
+                F.append(tap("rec1", 1, w) + tap("c", h, 14) + tap("c", 1, 14) + tap("stop", 1, 2) + tap("play1", 1, 0) +
+                         wait_replay(8) + [["t", 30]])
+                F.append([["d", C("rec1")], ["t", w]] + tap("c", h, 2) + [["u", C("rec1")], ["t", 2]] + tap("stop", 1, 2) +
+                         tap("play1", 1, 0) + wait_replay(8) + [["t", 30]])
+        return S, F
     E, S = S, []
     # nesting / recursion / re-recording / play while recording / size limit
     def recmac(rk, body, stop="stop"):
